@@ -85,6 +85,16 @@ def c19_case(draw):
         # never between a label and its marker word
         spots = [0, len(files[host])] + [i + 1 for i, s_ in enumerate(files[host]) if "marker_for" in s_]
         files[host].insert(draw(st.sampled_from(spots)), {"k": "include", "path": rel})
+    # uses of symbols that another file exports (an imported name belongs to the exporting file's section only)
+    exported = {p_: [s_["name"] for s_ in st_ if s_["k"] == "label" and s_.get("export")] for p_, st_ in files.items()}
+    for p_ in list(files):
+        others = [n for q_, ns in exported.items() if q_ != p_ for n in ns]
+        for _ in range(draw(st.integers(0, 2)) if others else 0):
+            name = draw(st.sampled_from(others))
+            if draw(st.booleans()):
+                name = name.upper()
+            spots = [0, len(files[p_])] + [i + 1 for i, s_ in enumerate(files[p_]) if "marker_for" in s_]
+            files[p_].insert(draw(st.sampled_from(spots)), {"k": "data", "d": "word", "es": [("sym", name)]})
     base = draw(st.sampled_from([None, 0o2000, 0o100000]))
     if base is not None:
         files[mains[0]].insert(0, {"k": "link", "e": ("num", base)})
